@@ -30,10 +30,10 @@ package cmdrunner
 //@ func cmdrunner.NewCmdRunner
 //@   nopanic [C01.d] [C19.total]
 //@   nonblocking
-//@   requires cmd != nil
+//@   requires cmd != nil && logger != nil
 //@   modifies cmd.Stdout, cmd.Stderr
 //@   ensures result1 != nil ==> result0 == nil
-//@   ensures result1 == nil ==> result0 != nil && cmd.Stdout != nil
+//@   ensures result1 == nil ==> result0 != nil && cmd.Stdout != nil && result0.logger == logger && result0.cmd == cmd
 //@   ensures old(cmd.Stdout) != nil ==> result1 != nil   [C19.once]
 //@   ensures cmd.Stdout != nil || cmd.Stdout == old(cmd.Stdout)
 //@   ensures launches == old(launches)
@@ -65,7 +65,7 @@ package cmdrunner
 //@ func (*cmdrunner.CmdRunner).Wait
 //@   nopanic [C04.end]
 //@   bounded peer-dead [C03.c] [C18.gor]
-//@   requires c.cmd != nil
+//@   requires c.cmd != nil && c.logger != nil
 //@   at call (*exec.Cmd).Wait#1 assert recv == c.cmd   [C04.end]
 
 //@ func (*cmdrunner.CmdRunner).Start
